@@ -96,6 +96,8 @@ static void rsz_ghost_init(void)
 	G.t_rsv_ss2 = G.n_rsv_ss2 = G.n_mfm = G.t_mfm_first = G.n_mtb = 0;
 }
 
+static ext2_filsys rsz_new_fs, rsz_old_fs;	/* the two handles (set by the harness) */
+
 /* ---- bitmap primitives (the inline ext2fs_*_block_bitmap2 of bitops.h end here) ---- */
 #ifndef RSZ_NO_BITMAP_STUBS
 int ext2fs_test_generic_bmap(ext2fs_generic_bitmap bitmap, __u64 arg)
@@ -151,7 +153,6 @@ void ext2fs_unmark_block_bitmap_range2(ext2fs_block_bitmap bitmap, blk64_t block
 
 /* ---- table locations of the group descriptors (lib/ext2fs/blknum.c) ---- */
 #ifndef RSZ_NO_LOC_STUBS
-static ext2_filsys rsz_new_fs, rsz_old_fs;
 static unsigned long long rsz_get_loc(ext2_filsys fs, dgrp_t group, int kind)
 {
 	int f = (fs == rsz_old_fs);
